@@ -16,6 +16,9 @@ def run(ctx):
     r1 = ctx.tlc("roll-bfs", "MCRoll", "MCRoll_quick.cfg" if q else "MCRoll_thorough.cfg", workers=12 if q else 16,
                  timeout=600 if q else 5400)
     r2 = ctx.tlc("roll-sim", "MCRoll", "MCRoll_sim.cfg", sim=(250 if q else 4000, 13), workers=12, timeout=3000)
+    # history-free configuration: a finite cyclic graph, so the invariants hold for histories of EVERY length
+    ctx.tlc("roll-win", "MCRollWin", "MCRollWin_quick.cfg" if q else "MCRollWin_thorough.cfg", workers=12 if q else 16,
+            timeout=900 if q else 7200, emit=False)
     binp = ctx.build("tvh-roll")
     extra = [] if q else ["--full"]
     ctx.harness("roll-bfs", binp, ["replay-roll1", "--kernels", FEAT, "--in", r1["emitted"]] + extra)
